@@ -31,7 +31,7 @@ func c05OutTokens() []string {
 	toks := []string{
 		"plain text\r\n", "$ ", "\x1b[1;32mgreen\x1b[0m", "\x1b[2J\x1b[H", "\x00\x01\xee\xff\x7e",
 		"\x1b7\x07" + trig + "\r\n#CFG:eJyrVspJzEtXslJQKqhU0lFQSipNK86sSgUKGBqYWJgaGxkYGBvoKJVkluSmAgUNDXSUCoryS/KT83OUrBRMagG+QxRy\r\n", // scroll-back of a handshake
-		trig + "\r\n" + strings.Repeat(" ", 40) + "Saved 1 file/directory\r\n- a.txt\r\n", // scroll-back of a finished transfer
+		trig + "\r\n" + strings.Repeat(" ", 40) + "Saved 1 file/directory\r\n- a.txt\r\n",                                                // scroll-back of a finished transfer
 		"::TRZSZ:TRANSFER:X:1.1.8:1234567890100:0\r\n", "::TRZSZ:TRANSFER:S:1.1:77\r\n", "::TRZSZ:TRANSFER:S:a.b.c\r\n", "::TRZSZ:TRANSFER:",
 		"**\x18B0100000023be5\r\x8a", "**\x18B00000000000000\r\x8asz: cannot open /x: No such file\r\n", "**\x18B0", "*\x18B0100000023be50",
 		"\x1b]52;c;QUJD", "\x1b]52;x;QUJD\x07", "\x1b]52;", "\x1b]52;c;" + strings.Repeat("A", 1000) + "!!", "<ENABLE_TRZSZ_TRACE_LOG", "<DISABLE_TRZSZ_TRACE_LOG", "ENABLE_TRZSZ_TRACE_LOG>",
@@ -206,10 +206,63 @@ func c05Run(j vs.Job) *vs.JobResult {
 				r.Violate("c05:history:"+firstWords(v, 6), wp.String()+": "+v, wp)
 			}
 		}
+	case "zmodem":
+		// histories ending in a zmodem session (C19's session driver), then input before any remote output
+		for i, zp := range c05ZmodemHistories() {
+			if i%p.N != p.Shard {
+				continue
+			}
+			zp.Bound = 0
+			if j.Tier == "thorough" {
+				zp.Bound = 1
+			}
+			exec := c19Exec(zp)
+			if j.Replay != nil && j.Replay.Detail != nil {
+				b, _ := json.Marshal(j.Replay.Detail)
+				json.Unmarshal(b, &zp)
+				x := c19Exec(zp)(j.Replay.Choices, nil, true)
+				r.Notes = append(r.Notes, x.Sched.Trace...)
+				r.Notes = append(r.Notes, "outcome: "+x.Outcome)
+				if x.Violation != "" {
+					r.Violate(x.Signature, x.Violation, zp)
+				}
+				return r
+			}
+			st := vs.NewStats()
+			e := &vs.Explorer{Exec: exec, Budget: vs.Budget{Total: zp.Bound}, St: st}
+			if j.Deadline > 0 {
+				e.Deadline = deadline
+			}
+			e.Explore()
+			before := len(r.Violations)
+			r.AddStats(st)
+			r.Nontrivial += int64(len(st.Outcomes))
+			for k := before; k < len(r.Violations); k++ {
+				r.Violations[k].Desc = fmt.Sprintf("%+v: %s", zp, r.Violations[k].Desc)
+				r.Violations[k].Detail = zp
+			}
+			if len(r.Samples) < 2 {
+				r.Samples = append(r.Samples, fmt.Sprintf("zmodem history %+v then typed %q", zp, c05AfterSessionInput))
+			}
+		}
 	case "exit":
 		c05Exit(r)
 	}
 	return r
+}
+
+func c05ZmodemHistories() []c19Params {
+	var out []c19Params
+	for _, up := range []bool{false, true} {
+		for _, helper := range []string{"missing", "exit1", "run3", "silent", "late"} {
+			for _, server := range []string{"finish", "cancel-after", "keeps", "quiet"} {
+				for _, cc := range []int{-1, 100} {
+					out = append(out, c19Params{Upload: up, Helper: helper, Server: server, CtrlCMs: cc, InputFirst: true})
+				}
+			}
+		}
+	}
+	return out
 }
 
 // c05Exit: the real trzsz binary wraps a command; its exit status must be passed on and what the
@@ -298,8 +351,8 @@ func init() {
 		ID:    "C05",
 		Level: "exploration",
 		Rule: "(i) all 16 subsets of {drag detection, zmodem, OSC52, trace log} x output tokens (text, CSI, binary, scroll-back of a handshake and of a finished transfer, triggers with bad mode/version, every listed truncation, zmodem near-misses and vetoed headers, OSC52 fragments, trace-log near-misses) and input tokens (text, Ctrl-C, escape keys, path-like input naming files that do not exist in four styles, binary), " +
-			"each token with every single cut, token pairs in one and in two reads; (ii) every history of one or two transfers over {upload, download, refused, failed on the client, failed on the server, Ctrl-C keep/delete, server SIGINT, old-version server} followed by a probe in both directions; (iii) the real trzsz binary wrapping sh for 4 exit codes x 3 output timings",
-		Assumptions: []string{"(iii) is a process-level run in real time over a fixed menu (3 tries each); everything else runs under the scheduler", "the complete trace-log switch and genuine triggers / zmodem headers are not 'idle' input and are excluded"},
+			"each token with every single cut, token pairs in one and in two reads; (ii) every history of one or two transfers over {upload, download, refused, failed on the client, failed on the server, Ctrl-C keep/delete, server SIGINT, old-version server} followed by a probe in both directions; (iii) every history ending in a zmodem session over {download, upload} x helper {missing, exits 1, runs, silent, late} x remote {finishes, cancels, keeps sending, falls silent} x {no Ctrl-C, Ctrl-C}, after which the user types (Ctrl-C, text, CAN, escape key, a command; each a read of its own) before the remote side prints anything; (iv) the real trzsz binary wrapping sh for 4 exit codes x 3 output timings",
+		Assumptions: []string{"(iv) is a process-level run in real time over a fixed menu (3 tries each); everything else runs under the scheduler", "the complete trace-log switch and genuine triggers / zmodem headers are not 'idle' input and are excluded"},
 		QuickBudget: 100, ThoroughBudget: 600, DiedIsViolation: true,
 		Jobs: func(tier string) []vs.Job {
 			var jobs []vs.Job
@@ -310,6 +363,9 @@ func init() {
 			hs := c05Histories()
 			for s := 0; s < 4; s++ {
 				jobs = append(jobs, vs.MkJob(fmt.Sprintf("history %d/4", s), c05Params{Part: "history", Shard: s, N: 4, W: hs}))
+			}
+			for s := 0; s < 4; s++ {
+				jobs = append(jobs, vs.MkJob(fmt.Sprintf("zmodem history %d/4", s), c05Params{Part: "zmodem", Shard: s, N: 4}))
 			}
 			jobs = append(jobs, vs.MkJob("exit", c05Params{Part: "exit"}))
 			return jobs
